@@ -29,7 +29,7 @@ var (
 
 	// Router is shared between httpd, webui and rest packages. It sends
 	// incoming requests to the correct handler function
-	Router = mux.NewRouter()
+	Router = newRouter()
 
 	rootConfig *config.Root
 	server     *http.Server
@@ -38,6 +38,13 @@ var (
 	// ExpWebSocketConnectsCurrent tracks the number of open WebSockets
 	ExpWebSocketConnectsCurrent = new(expvar.Int)
 )
+
+// newRouter creates the shared router.  Routes are matched against the encoded path so that an
+// escaped slash (%2F) inside a mailbox name does not split the path; NewContext unescapes the
+// extracted variables.
+func newRouter() *mux.Router {
+	return mux.NewRouter().UseEncodedPath()
+}
 
 func init() {
 	m := expvar.NewMap("http")
